@@ -33,11 +33,12 @@ theorem cloneNode_full (f : Forest) (inv : f.Inv) (node : Nat) (src : HTree)
       f'.roots = f.roots ++ [C] ∧ f'.get? C.handle = some C ∧
       (∀ h ∈ handles C, f.next ≤ h ∧ h < f'.next) ∧ f.next ≤ f'.next ∧
       erase C = expectedClone f.consolidation (erase src) ∧
-      f'.consolidation = f.consolidation ∧ f'.everOff = f.everOff ∧ f'.corrupt = f.corrupt := by
-  obtain ⟨f', h1, h2, h3, h4, h5, h6⟩ := cloneNode_spec f inv node src hsrc
+      f'.consolidation = f.consolidation ∧ f'.everOff = f.everOff ∧ f'.corrupt = f.corrupt ∧
+      f'.allHandles.Nodup := by
+  obtain ⟨f', h1, h2, h3, ⟨h4, h5, h6⟩, h7⟩ := cloneNode_spec f inv node src hsrc
   have hh := copyRoot_handles f.consolidation f.next src
   have hroot := hh _ (handle_mem_handles _)
-  refine ⟨(copyRoot f.consolidation f.next src).1, f', h1, h2, ?_, ?_, ?_, ?_, h4, h5, h6⟩
+  refine ⟨(copyRoot f.consolidation f.next src).1, f', h1, h2, ?_, ?_, ?_, ?_, h4, h5, h6, ?_⟩
   · unfold Forest.get?
     rw [h2, findList?_append_of_not_mem]
     · simp only [findList?, find?_root]
@@ -49,5 +50,8 @@ theorem cloneNode_full (f : Forest) (inv : f.Inv) (node : Nat) (src : HTree)
     exact hh h hm
   · rw [h3]; omega
   · exact erase_copyRoot _ _ _ _ (inv.valid_get hsrc)
+  · unfold Forest.allHandles
+    rw [h2, handlesList_append, handlesList_singleton]
+    exact h7
 
 end XotModel
